@@ -69,7 +69,7 @@ pub fn eq_case_strategy(thorough: bool) -> BoxedStrategy<EqCase> {
                 Just(kind),
                 Just(u),
                 prop_oneof![
-                    15 => vec((0..u.max(1), any::<u32>(), gen::prio_val(dom)), 0..24),
+                    15 => vec((0..u.max(1), any::<u32>(), gen::prio_val(dom)), 0..56),
                     // contents above internal size thresholds (e.g. a fast path for > 256 entries)
                     1 => vec((0u32..1200, any::<u32>(), gen::prio_val(dom)), 300..420),
                 ],
@@ -158,7 +158,7 @@ where
     QB: Queue + PartialEq<QA>,
 {
     let fail = |clause: &'static str, detail: String| Failure { group: Group::EqClone, clause, step: 0, op: "eq", detail, kind: QA::NAME };
-    let cfg = RunCfg { prop: 14, hint_meta: false, tables: true, universe: c.universe.max(1), raw: false };
+    let cfg = RunCfg { prop: 14, hint_meta: false, tables: true, universe: c.universe.max(1), raw: false, strict_trace: false };
     let Some(mut ia) = run_route::<QA>(&c.a, &cfg) else { return Ok(false) };
     let Some(mut ib) = run_route::<QB>(&c.b, &cfg) else { return Ok(false) };
     let s = {
@@ -226,13 +226,29 @@ where
                 }
                 stats.hit("eq_divergence_point_probed");
             }
+            // the first and the last slots of either arrangement (a comparison that strips common
+            // prefixes / suffixes must still look at their priorities)
+            for ord in [&oa, &ob] {
+                for j in [0usize, 1, ord.len().saturating_sub(2), ord.len() - 1] {
+                    if let Some(p) = ord.get(j).and_then(|id| elems.iter().position(|e| e.0 == *id)) {
+                        picks.push(p);
+                    }
+                }
+            }
             if n > 64 {
                 for j in 0..16 {
                     picks.push(j * (n - 1) / 15);
                 }
             }
         }
+        picks.sort_unstable();
         picks.dedup();
+        // the generated pick first (it carries the generated kind of near miss)
+        if n > 0 {
+            let g = (c.miss_at as usize * n) >> 16;
+            picks.retain(|p| *p != g);
+            picks.insert(0, g);
+        }
         let variants: Vec<(NearMiss, usize)> = if n == 0 {
             vec![(NearMiss::OneAdded, 0)]
         } else {
@@ -452,7 +468,7 @@ pub fn eq_verdict(c: &EqCase, stats: &mut Stats) -> SVerdict {
 // C18
 
 pub fn hasher_verdict(case: &Case, stats: &mut Stats) -> SVerdict {
-    let cfg = RunCfg { prop: 0, hint_meta: false, tables: false, universe: case.universe.max(1), raw: false };
+    let cfg = RunCfg { prop: 0, hint_meta: false, tables: false, universe: case.universe.max(1), raw: false, strict_trace: false };
     let mut results: Vec<(HasherKind, Option<String>, Option<Vec<TraceEv>>)> = Vec::new();
     let mut hashers = vec![HasherKind::Fixed, HasherKind::Random, HasherKind::Keyed, HasherKind::Xx, HasherKind::Colliding, HasherKind::Coarse];
     if cfg!(not(feature = "std")) {
@@ -885,4 +901,79 @@ pub fn run_c12_strings(a: &WorkerArgs) -> WorkerReport {
         c.hash(&mut h);
         h.finish()
     }, |c: &StrCase| c.ops.len())
+}
+
+// ---------------------------------------------------------------------------------------------
+// C06: sorted consumption over zero-sized item / priority types (0, 1 elements; every form)
+
+pub fn zst_sorted_battery() -> Option<Failure> {
+    use priority_queue::{DoublePriorityQueue, PriorityQueue};
+    #[derive(PartialEq, Eq, Hash, PartialOrd, Ord, Clone, Debug)]
+    struct U;
+    let fail = |d: String| Some(Failure { group: Group::Sorted, clause: "zst_sorted", step: 0, op: "sorted", detail: d, kind: "DPQ" });
+    macro_rules! go {
+        ($what:expr, $n:expr, $body:expr) => {{
+            match catch_unwind(AssertUnwindSafe(|| $body)) {
+                Err(_) => return fail(format!("{} on a queue of {} zero-sized elements panicked: {}", $what, $n, last_panic_message())),
+                Ok(len) => {
+                    if len != $n {
+                        return fail(format!("{} on a queue of {} zero-sized elements yielded {} elements", $what, $n, len));
+                    }
+                }
+            }
+        }};
+    }
+    for n in 0..2usize {
+        go!("PriorityQueue::into_sorted_vec", n, {
+            let mut q: PriorityQueue<(), ()> = PriorityQueue::new();
+            for _ in 0..n {
+                q.push((), ());
+            }
+            q.into_sorted_vec().len()
+        });
+        go!("PriorityQueue::into_sorted_iter", n, {
+            let mut q: PriorityQueue<U, U> = PriorityQueue::new();
+            for _ in 0..n {
+                q.push(U, U);
+            }
+            q.into_sorted_iter().count()
+        });
+        go!("DoublePriorityQueue::into_ascending_sorted_vec", n, {
+            let mut q: DoublePriorityQueue<(), ()> = DoublePriorityQueue::new();
+            for _ in 0..n {
+                q.push((), ());
+            }
+            q.into_ascending_sorted_vec().len()
+        });
+        go!("DoublePriorityQueue::into_descending_sorted_vec", n, {
+            let mut q: DoublePriorityQueue<U, U> = DoublePriorityQueue::new();
+            for _ in 0..n {
+                q.push(U, U);
+            }
+            q.into_descending_sorted_vec().len()
+        });
+        go!("DoublePriorityQueue::into_sorted_iter (both ends)", n, {
+            let mut q: DoublePriorityQueue<(), U> = DoublePriorityQueue::new();
+            for _ in 0..n {
+                q.push((), U);
+            }
+            let mut it = q.into_sorted_iter();
+            let l = it.len();
+            let a = it.next_back().is_some() as usize;
+            let b = it.next().is_some() as usize;
+            if l != a + b {
+                usize::MAX
+            } else {
+                a + b
+            }
+        });
+        go!("DoublePriorityQueue<u8,()>::into_descending_sorted_vec", n, {
+            let mut q: DoublePriorityQueue<u8, ()> = DoublePriorityQueue::new();
+            for i in 0..n {
+                q.push(i as u8, ());
+            }
+            q.into_descending_sorted_vec().len()
+        });
+    }
+    None
 }
